@@ -161,6 +161,67 @@ def wrap_witness(spec):
     return r
 
 
+def direct_range_case(spec):
+    """several receivers in ONE call with direct sound, a histogram so short that the direct sound of an
+    EARLIER listed receiver arrives after its end while a later one is in range: the direct contribution
+    (curve with direct sound minus curve without) of every receiver is its own single bin or nothing"""
+    rng = np.random.default_rng([spec["seed"], 66000 + spec["idx"]])
+    out = {"evaluations": 1, "mismatches": [], "prop_failures": [], "dist": {"direct_sound_out_of_range_first": 1},
+           "nontrivial": []}
+    nb = int(rng.integers(1, 3))
+    cfg = S.draw_config(rng, nb=nb, multi_dir=False, max_patches=12)
+    radi = S.build(cfg)
+    dims = np.array(cfg["dims"], dtype=float)
+    src = np.array([0.15, 0.2, 0.25]) * dims + rng.uniform(0, 0.05, 3)
+    far = np.array([0.85, 0.8, 0.8]) * dims - rng.uniform(0, 0.05, 3)
+    near = [src + rng.uniform(0.15, 0.3, 3) * np.minimum(dims, 1.0) for _ in range(int(rng.integers(1, 3)))]
+    recs = [far] + near if rng.random() < 0.7 else [near[0], far] + near[1:]
+    c = 343.0
+    dt = float(np.round(rng.uniform(0.0008, 0.0012), 6))
+    dmax_near = max(float(np.linalg.norm(r - src)) for r in near)
+    dfar = float(np.linalg.norm(far - src))
+    n_lo = int(dmax_near / c / dt) + 2
+    n_hi = int(dfar / c / dt) - 1
+    if n_hi < n_lo:
+        out["rejected"] = 1
+        return out
+    N = int(rng.integers(n_lo, n_hi + 1))
+    dur = (N + 0.5) * dt
+    args = np.array([float(np.linalg.norm(r - src)) / c / dt for r in recs])
+    if np.any(np.abs(args - np.round(args)) < 1e-6):
+        out["rejected"] = 1
+        return out
+    tag = dict(direct_range=True, seed=spec["seed"], idx=spec["idx"], dims=cfg["dims"], src=src.tolist(),
+               recs=[r.tolist() for r in recs], c=c, dt=dt, dur=dur, N=N)
+    out["sample"] = tag
+    radi.init_source_energy(pf.Coordinates(*src))
+    radi.calculate_energy_exchange(c, dt, dur, 1, recalculate=True)
+    rc = pf.Coordinates(np.array(recs)[:, 0], np.array(recs)[:, 1], np.array(recs)[:, 2])
+    with_d = radi.collect_energy_receiver_mono(rc, direct_sound=True).time
+    without = radi.collect_energy_receiver_mono(rc, direct_sound=False).time
+    diff = with_d - without
+    nbins = diff.shape[-1]
+    for ri, r in enumerate(recs):
+        D = float(np.linalg.norm(r - src))
+        k = int(D / c / dt)
+        for b in range(nb):
+            expect = np.zeros(nbins)
+            if k < nbins:
+                expect[k] = 1 / (4 * np.pi * D * D) * np.exp(-cfg["att"][b] * D)
+            got = diff[ri, b]
+            if np.any(np.abs(got - expect) > 1e-9 * max(expect.max(), 1e-30) + 1e-15):
+                kk = int(np.argmax(np.abs(got - expect)))
+                out["prop_failures"].append(dict(
+                    test="direct_sound_own_receiver", case=tag, receiver=ri, band=b,
+                    what="receivers %s in one call, %d bins: the direct sound added to receiver %d (distance %.3f m, bin %d%s) "
+                         "is %r in bin %d, expected %r" % ([np.round(x, 3).tolist() for x in recs], nbins, ri, D, k,
+                                                            "" if k < nbins else " = beyond the end", float(got[kk]), kk,
+                                                            float(expect[kk]))))
+                return out
+    out["nontrivial"].append(case_hash(tag))
+    return out
+
+
 def run(res):
     quick = res.tier == "quick"
     specs = [dict(seed=res.seed, idx=i, max_patches=(18 if quick else 34)) for i in range(10 if quick else 300)]
@@ -169,6 +230,8 @@ def run(res):
     pspecs = [dict(seed=res.seed + 13, idx=3 * i + 2, max_patches=(30 if quick else 40), partial=True)
               for i in range(5 if quick else 60)]
     for r in fw.run_parallel(scene_case, pspecs):
+        res.absorb(r)
+    for r in fw.run_parallel(direct_range_case, [dict(seed=res.seed, idx=i) for i in range(6 if quick else 80)]):
         res.absorb(r)
     for r in fw.run_parallel(wrap_witness, [{}]):
         res.absorb(r)
@@ -183,7 +246,9 @@ def replay(res, payload):
     for f in payload.get("failures", []) + payload.get("correspondence", []):
         case = f.get("case", {})
         if case.get("witness"):
-                res.absorb(wrap_witness({}))
+            res.absorb(wrap_witness({}))
+        elif case.get("direct_range"):
+            res.absorb(fw.run_parallel(direct_range_case, [dict(seed=case["seed"], idx=case["idx"])])[0])
         else:
             res.absorb(scene_case(dict(seed=case["seed"], idx=case["idx"], max_patches=case.get("max_patches", 34),
                                        partial=bool(case.get("partial")))))
